@@ -23,6 +23,14 @@ type access struct {
 
 var out []access
 
+// calls that run user code or may block on a peer: the handler dispatch, replies, connection I/O, Accept, WaitGroup.Wait.
+// Recorded with the lock state at the call site (second table, "callouts").
+var calloutNames = map[string]bool{"VarlinkDispatch": true, "HandleMessage": true, "handleConnection": true, "sendMessage": true, "Write": true, "Read": true,
+	"ReadBytes": true, "Accept": true, "Wait": true, "Reply": true, "ReplyError": true, "ReplyInterfaceNotFound": true, "ReplyMethodNotFound": true,
+	"ReplyMethodNotImplemented": true, "ReplyInvalidParameter": true, "orgvarlinkserviceDispatch": true, "getInfo": true, "getInterfaceDescription": true,
+	"replyGetInfo": true, "replyGetInterfaceDescription": true}
+var callouts []access
+
 type walker struct {
 	fn     string
 	recv   string
@@ -86,6 +94,9 @@ func (w *walker) expr(e ast.Expr, write bool) {
 		if _, ok := w.lockCall(v); ok {
 			return
 		}
+		if se, ok := v.Fun.(*ast.SelectorExpr); ok && calloutNames[se.Sel.Name] {
+			callouts = append(callouts, access{w.fn, se.Sel.Name, "R", w.depth > 0})
+		}
 		if id, ok := v.Fun.(*ast.Ident); ok && id.Name == "append" && len(v.Args) > 0 {
 			for _, a := range v.Args {
 				w.expr(a, false)
@@ -128,9 +139,9 @@ func (w *walker) stmt(s ast.Stmt) {
 	case nil:
 	case *ast.ExprStmt:
 		if name, ok := w.lockCall(v.X); ok {
-			if name == "Lock" {
+			if name == "Lock" || name == "RLock" {
 				w.depth++
-			} else if name == "Unlock" && !w.sticky {
+			} else if (name == "Unlock" || name == "RUnlock") && !w.sticky {
 				w.depth--
 			}
 			return
@@ -147,7 +158,7 @@ func (w *walker) stmt(s ast.Stmt) {
 		w.expr(v.X, false)
 		w.expr(v.X, true)
 	case *ast.DeferStmt:
-		if name, ok := w.lockCall(v.Call); ok && name == "Unlock" {
+		if name, ok := w.lockCall(v.Call); ok && (name == "Unlock" || name == "RUnlock") {
 			w.sticky = true
 			return
 		}
@@ -294,9 +305,29 @@ func main() {
 		}
 		return !u[i].locked && u[j].locked
 	})
+	seenc := map[access]bool{}
+	var uc []access
+	for _, a := range callouts {
+		if !seenc[a] {
+			seenc[a] = true
+			uc = append(uc, a)
+		}
+	}
+	sort.Slice(uc, func(i, j int) bool {
+		if uc[i].fn != uc[j].fn {
+			return uc[i].fn < uc[j].fn
+		}
+		if uc[i].field != uc[j].field {
+			return uc[i].field < uc[j].field
+		}
+		return !uc[i].locked && uc[j].locked
+	})
 	if len(os.Args) > 2 && os.Args[2] == "text" {
 		for _, a := range u {
 			fmt.Printf("%s %s %s %v\n", a.fn, a.field, a.kind, a.locked)
+		}
+		for _, a := range uc {
+			fmt.Printf("callout %s %s locked=%v\n", a.fn, a.field, a.locked)
 		}
 		return
 	}
@@ -318,6 +349,20 @@ func main() {
 			l = "true"
 		}
 		fmt.Printf("  mkAcc %s %s %s %s%s  (* %s.%s *)\n", coqStr(a.fn), coqStr(a.field), k, l, sep, a.fn, a.field)
+	}
+	fmt.Println("].")
+	fmt.Println("(* calls that run handlers or may block on a peer, with the lock state at the call site *)")
+	fmt.Println("Definition callouts : list access := [")
+	for i, a := range uc {
+		sep := ";"
+		if i == len(uc)-1 {
+			sep = ""
+		}
+		l := "false"
+		if a.locked {
+			l = "true"
+		}
+		fmt.Printf("  mkAcc %s %s AR %s%s  (* %s calls %s *)\n", coqStr(a.fn), coqStr(a.field), l, sep, a.fn, a.field)
 	}
 	fmt.Println("].")
 }
